@@ -16,7 +16,7 @@ Model: `RzilVerif/Model/PPMacros.lean`.
 * A (`patch_macros`): `patch_replaces_all` (+ `_original`), `patch_once_first_position`,
   `patch_user_only_added`, `patch_preserves_others`, `dictOfPatchLines_ok`.
 -/
-namespace Rzil.PP
+namespace Rzil.PPM
 
 /-! ## Basic facts about the helpers -/
 
@@ -1609,4 +1609,4 @@ example : macroName "#define  A 7".toList = some "A".toList ∧
 -- a macro line without a name makes the Python raise
 example : patchMacros exDict ["#define X 0".toList, "#undef X".toList] = none := by decide
 
-end Rzil.PP
+end Rzil.PPM
